@@ -9,7 +9,7 @@
      caption); `if merged_captions: caption_set.set_captions(lang, merged_captions)` per language.
    A caption is (start, end, nodes), a node is None (line break) or Some text.  Definitions only. *)
 From Coq Require Import List ZArith Bool.
-From PV Require Import lib.Sx lib.Str model.Langs.
+From PV Require Import lib.Sx lib.Str lib.Result model.Langs.
 Import ListNotations.
 Open Scope Z_scope.
 
@@ -60,3 +60,16 @@ Definition merge_lang (caps : list cap) : list cap :=
 (* `if merged_captions: set_captions(lang, merged_captions)` - an empty language keeps its (empty) list *)
 Definition merge_concurrent (cs : list (str * list cap)) : list (str * list cap) :=
   map (fun lc => (fst lc, match merge_lang (snd lc) with [] => snd lc | m => m end)) cs.
+
+(* ---- SinglePositioningDFXPWriter.write / LegacyDFXPWriter.write: merge first, then the writer of model.Langs ------ *)
+(* a merged caption as it is observed in the written <p>: its start and its text nodes joined by one space (the line
+   breaks become <br/>, which the observation turns into white space) *)
+Definition cap_texts (c : cap) : list str :=
+  flat_map (fun n => match n with Some t => [t] | None => [] end) (cap_nodes c).
+Definition flat_cue (c : cap) : cue := (cap_start c, join (lit " ") (cap_texts c)).
+Definition flat_set (cs : list (str * list cap)) : capset := map (fun lc => (fst lc, map flat_cue (snd lc))) cs.
+(* caption_set = merge_concurrent_captions(caption_set); return super().write(caption_set, force) *)
+Definition single_write (force : str) (cs : list (str * list cap)) : dfxp_doc :=
+  dfxp_write force (flat_set (merge_concurrent cs)).
+Definition legacy_merge_write (force : str) (cs : list (str * list cap)) : Result.result dfxp_doc :=
+  legacy_write force (flat_set (merge_concurrent cs)).
